@@ -265,8 +265,9 @@ def default_inline(ctx):
                 target = m.value
         if target is None or target.qualname in known:
             return None
-        if getattr(target, 'decorators', None):
-            return None            # a decorated helper (memoised, wrapped, ...) is not its body
+        decs = [ast.unparse(d) for d in (getattr(target, 'decorators', None) or [])]
+        if decs and decs != ['staticmethod']:
+            return None            # a decorated helper (memoised, wrapped, ...) is not its body (a plain staticmethod is)
         if any(isinstance(n, (ast.Yield, ast.YieldFrom, ast.Global, ast.Nonlocal)) for n in ast.walk(target.node)):
             return None
         ctx.functions.add(target.qualname)
